@@ -1,11 +1,14 @@
 #!/usr/bin/env python3
 """tools/seed_store.py <ID> <k> <demo cmd string> <detected-by (comma list, or 'none')> [<title>]
-Copies a confirmed seeded change from /tmp/mut/<ID>/_out into /verif/seeded/<ID>-<k>/."""
+Copies a confirmed seeded change from $MUT_ROOT/<ID>/_out (default /tmp/mut) into
+/verif/seeded/<ID>-<k + $SEED_OFFSET>/ (default offset 0)."""
 import json, os, re, shutil, sys
 pid, k, demo_cmd, detected = sys.argv[1:5]
 title = sys.argv[5] if len(sys.argv) > 5 else ""
-src = "/tmp/mut/%s/_out" % pid
-dst = "/verif/seeded/%s-%s" % (pid, k)
+ROOT = os.environ.get("MUT_ROOT", "/tmp/mut")
+src = "%s/%s/_out" % (ROOT, pid)
+kd = str(int(k) + int(os.environ.get("SEED_OFFSET", "0")))
+dst = "/verif/seeded/%s-%s" % (pid, kd)
 os.makedirs(dst, exist_ok=True)
 shutil.copyfile("%s/patch%s.diff" % (src, k), dst + "/patch.diff")
 if os.path.isdir(dst + "/demo"):
@@ -17,10 +20,11 @@ parts = re.split(r"\n(?=#+ .*(?:[Cc]hange|[Mm]utation|patch)\s*%s)" % k, notes)
 mine = parts[1] if len(parts) > 1 else notes
 mine = re.split(r"\n(?=#+ .*(?:[Cc]hange|[Mm]utation|patch)\s*%s)" % (3 - int(k)), mine)[0]
 vlog = ""
-for f in ("/tmp/mut/verify_a.log", "/tmp/mut/verify_b.log", "/tmp/mut/verify_c.log", "/tmp/mut/verify_d.log"):
+import glob
+for f in sorted(glob.glob(ROOT + "/verify_*.log")):
     if os.path.exists(f):
         for ln in open(f):
-            if ln.startswith("SEED /tmp/mut/%s %s:" % (pid, k)):
+            if ln.startswith("SEED %s/%s %s:" % (ROOT, pid, k)):
                 vlog = ln.strip()
 meta = {
     "property": pid,
@@ -34,7 +38,7 @@ meta = {
         "result": vlog,
     },
     "detected_by": [] if detected == "none" else detected.split(","),
-    "how_to_run_checks": "tools/seed_check.sh /verif/seeded/%s-%s/patch.diff <property ids>" % (pid, k),
+    "how_to_run_checks": "tools/seed_check.sh /verif/seeded/%s-%s/patch.diff <property ids>" % (pid, kd),
 }
 json.dump(meta, open(dst + "/meta.json", "w"), indent=1)
 print("stored", dst)
